@@ -713,6 +713,22 @@ def cd3(F, R):
         pre = f.reach([0], cut_blocks=nx)
         early = [(b, i) for (b, i, var, term) in err_returns(f, adt="FilenameError") if b in pre]
         R.require(not early, f, f.npath.split("::")[-2] + ":no-early-rejection", "%s rejects a name before looking at its characters (e.g. by its length in UTF-8 bytes)" % f.npath.split("::")[-2], f.loc(early[0][0], early[0][1]) if early else f.loc(0))
+    # the name judged is the name given: the characters iterated and the strings compared with "." / ".." / "" are the argument
+    # itself, not a trimmed / re-cased / otherwise prepared copy ("..".trim_end_matches('.') is "", i.e. this_dir)
+    from .mir import strip_refs as _sr
+    for f in (fn, fv):
+        derived = []
+        for b, t in f.calls():
+            c = callee_of(t) or ""
+            if c.endswith("::chars") or c.endswith("str::is_empty") or (c.endswith(("PartialEq::eq", "PartialEq::ne")) and any("&str" in f.locals[a["p"]["l"]]["ty"] for a in t["args"] if a.get("p"))):
+                for a in t["args"]:
+                    if a.get("k") in ("move", "copy"):
+                        tt = _sr(f.term_of_operand(a, b))
+                        while tt[0] == "place" and all(e == "*" for e in tt[2]):
+                            tt = _sr(tt[1])
+                        if tt[0] in ("call", "var") or (tt[0] == "place" and _sr(tt[1])[0] == "call"):
+                            derived.append(tstr(tt)[:60])
+        R.require(not derived, f, f.npath.split("::")[-2] + ":name-as-given", "%s parses / compares a string derived from its argument (%s), not the argument itself" % (f.npath.split("::")[-2], derived[:2]), f.loc(0))
     # special-casing of "", "." and ".." before the loop
     s_ = " ".join(tstr(fn.call_term(t, b)) for b, t in fn.calls())
     R.require("this_dir" in s_ and "parent_dir" in s_ and ("is_empty" in s_ or 'eq(name, "")' in s_.replace("&", "").replace("*", "") or '""' in s_), fn, "special-names", "create_from_str must map '' and '.' to this_dir() and '..' to parent_dir()", fn.loc(0))
